@@ -150,7 +150,15 @@ def _child(spec: dict) -> dict:  # noqa: C901, PLR0915, PLR0912
             self.name = name
 
         def render(self, size, focus=False):
-            enter("render", w=self.name, size=list(size))
+            via = "other"
+            f = sys._getframe(1)
+            while f is not None:
+                n = f.f_code.co_name
+                if n in ("process_input", "entering_idle", "_run_screen_event_loop"):
+                    via = {"process_input": "input", "entering_idle": "idle", "_run_screen_event_loop": "screenloop"}[n]
+                    break
+                f = f.f_back
+            enter("render", w=self.name, size=list(size), via=via)
             txt = f"{self.name}S={st['state']}."
             c = urwid.Text(txt, wrap="clip").render((size[0],))
             c = urwid.CompositeCanvas(c)
